@@ -12,7 +12,11 @@ def run(tier, seed, boost=False, facts=None):
     n = 500 if tier == 'quick' else 8000
     if boost:
         n *= 3
-    return histprop.run_property('C08', gens2.gen_c08, n, seed + int('C08'[1:]), RULE)
+    def gen(rng):
+        if rng.random() < 0.25:
+            return gens2.gen_geom(rng)
+        return gens2.gen_c08(rng)
+    return histprop.run_property('C08', gen, n, seed + int('C08'[1:]), RULE)
 
 
 def replay(payload):
